@@ -1,7 +1,9 @@
 //! qv — bounded-exhaustive checks of the properties in /verif/properties.jsonl against /repo.
 //! usage: qv <ID> <quick|thorough> [--replay <file>]
 mod c06;
+mod c10;
 mod c11;
+mod c12;
 mod common;
 mod grids;
 mod probe;
@@ -53,7 +55,9 @@ fn main() {
         .unwrap();
     let report = match id.as_str() {
         "C06" => c06::run(&ctx),
+        "C10" => c10::run(&ctx),
         "C11" => c11::run(&ctx),
+        "C12" => c12::run(&ctx),
         "probe" => {
             probe::run();
             std::process::exit(0)
